@@ -20,7 +20,6 @@ use vc::raft::store::SharedCoordinatorState;
 use vc::raft::{ClusterCommand, VarpulisRaft};
 
 type J = serde_json::Value;
-type Routes = warp::filters::BoxedFilter<(warp::reply::Response,)>;
 
 // ------------------------------------------------------------------ case
 
@@ -57,13 +56,13 @@ fn episode(persistent: bool) -> impl Strategy<Value = Vec<Act>> {
         3 => (0u8..3).prop_map(|node| Act::Isolate { node }),
         3 => (10u8..60).prop_map(|pct| Act::Drop { pct }),
         2 => (50u16..400).prop_map(|ms| Act::Delay { ms }),
-        if persistent { 5 } else { 0 } => (0u8..3).prop_map(|node| Act::Restart { node }),
+        if persistent { 8 } else { 0 } => (0u8..3).prop_map(|node| Act::Restart { node }),
     ];
     (fault, 1u8..3, 2500u16..4500, prop_oneof![2 => Just(Act::Heal), 1 => (1u8..3).prop_map(|n| Act::Write { n })]).prop_map(|(f, n, ms, last)| vec![f, Act::Write { n }, Act::Sleep { ms }, last])
 }
 
 fn case() -> impl Strategy<Value = Case> {
-    (any::<u64>(), proptest::bool::weighted(0.6)).prop_flat_map(|(seed, persistent)| {
+    (any::<u64>(), proptest::bool::weighted(0.7)).prop_flat_map(|(seed, persistent)| {
         proptest::collection::vec(episode(persistent), 2..=3).prop_map(move |eps| {
             let mut actions = vec![];
             for e in eps {
@@ -99,8 +98,10 @@ impl Faults {
     }
 }
 
+/// Where node i's real `raft::routes` server currently listens (None while the node is stopped).
 struct Slot {
-    routes: tokio::sync::RwLock<Option<Routes>>,
+    backend: tokio::sync::RwLock<Option<(String, tokio::sync::oneshot::Sender<()>)>>,
+    client: reqwest::Client,
 }
 
 fn unavailable(why: &str) -> warp::reply::Response {
@@ -140,17 +141,24 @@ fn proxy(target: usize, faults: Arc<Mutex<Faults>>, slot: Arc<Slot>) -> impl Fil
             if drop_req {
                 return Ok(unavailable("request dropped"));
             }
-            let routes = slot.routes.read().await.clone();
-            let Some(routes) = routes else { return Ok(unavailable("node down")) };
-            let resp = warp::test::request().method(method.as_str()).path(&format!("/raft/{rpc}")).header("content-type", "application/json").body(body).reply(&routes).await;
+            let backend = slot.backend.read().await.as_ref().map(|(a, _)| a.clone());
+            let Some(backend) = backend else { return Ok(unavailable("node down")) };
+            let m = reqwest::Method::from_bytes(method.as_str().as_bytes()).unwrap_or(reqwest::Method::POST);
+            let resp = slot.client.request(m, format!("{backend}/raft/{rpc}")).header("content-type", "application/json").body(body.to_vec()).send().await;
+            let (status, bytes) = match resp {
+                Ok(r) => {
+                    let st = r.status().as_u16();
+                    (st, r.bytes().await.map(|b| b.to_vec()).unwrap_or_default())
+                }
+                Err(_) => return Ok(unavailable("backend unreachable")),
+            };
             if std::env::var("VERIF_C37_DEBUG").is_ok() {
-                eprintln!("proxy: {:?} -> node {} /raft/{} => {} {}", sender, target + 1, rpc, resp.status(), String::from_utf8_lossy(&resp.body()[..resp.body().len().min(200)]));
+                eprintln!("proxy: {:?} -> node {} /raft/{} => {} {}", sender, target + 1, rpc, status, String::from_utf8_lossy(&bytes[..bytes.len().min(160)]));
             }
             if drop_resp {
                 return Ok(unavailable("response dropped"));
             }
-            let (parts, bytes) = resp.into_parts();
-            Ok(warp::http::Response::from_parts(parts, warp::hyper::Body::from(bytes)))
+            Ok(warp::http::Response::builder().status(status).header("content-type", "application/json").body(warp::hyper::Body::from(bytes)).unwrap())
         }
     })
 }
@@ -171,8 +179,14 @@ struct Cluster {
     stop: Vec<tokio::sync::oneshot::Sender<()>>,
 }
 
-fn real_routes(raft: Arc<VarpulisRaft>) -> Routes {
-    vc::raft::routes::raft_routes(raft, None).map(|r| warp::reply::Reply::into_response(r)).boxed()
+/// Serve the node's real `raft::routes` on a fresh loopback port.
+fn serve_real_routes(raft: Arc<VarpulisRaft>) -> (String, tokio::sync::oneshot::Sender<()>) {
+    let (tx, rx) = tokio::sync::oneshot::channel::<()>();
+    let (addr, fut) = warp::serve(vc::raft::routes::raft_routes(raft, None)).bind_with_graceful_shutdown(([127, 0, 0, 1], 0), async move {
+        let _ = rx.await;
+    });
+    tokio::spawn(fut);
+    (format!("http://{}", addr), tx)
 }
 
 impl Cluster {
@@ -186,7 +200,7 @@ impl Cluster {
             };
             match r {
                 Ok(b) => {
-                    *self.slots[i].routes.write().await = Some(real_routes(b.raft.clone()));
+                    *self.slots[i].backend.write().await = Some(serve_real_routes(b.raft.clone()));
                     self.nodes[i] = Some(Node { raft: b.raft, shared: b.shared_state });
                     return Ok(());
                 }
@@ -201,7 +215,9 @@ impl Cluster {
     }
 
     async fn stop_node(&mut self, i: usize) {
-        *self.slots[i].routes.write().await = None;
+        if let Some((_, tx)) = self.slots[i].backend.write().await.take() {
+            let _ = tx.send(());
+        }
         if let Some(n) = self.nodes[i].take() {
             let _ = n.raft.shutdown().await;
             drop(n);
@@ -306,7 +322,7 @@ async fn run_cluster(case: &Case) -> Outcome {
     let mut slots = vec![];
     let mut stop = vec![];
     for t in 0..3 {
-        let slot = Arc::new(Slot { routes: tokio::sync::RwLock::new(None) });
+        let slot = Arc::new(Slot { backend: tokio::sync::RwLock::new(None), client: reqwest::Client::builder().timeout(Duration::from_secs(5)).build().unwrap() });
         let (tx, rx) = tokio::sync::oneshot::channel::<()>();
         let (addr, fut) = warp::serve(proxy(t, faults.clone(), slot.clone())).bind_with_graceful_shutdown(([127, 0, 0, 1], 0), async move {
             let _ = rx.await;
@@ -552,16 +568,16 @@ fn run_case(case: &Case) -> Outcome {
 fn main() {
     let check = Check::new("C37", "exploration");
     check.rule(
-        "3-node clusters in one process (real openraft, real varpulis stores/state machine/HTTP transport/routes; 60% RocksDB-backed, else in-memory), every peer address is a harness proxy that refuses by (sender->target), drops requests/responses or delays; \
+        "3-node clusters in one process (real openraft, real varpulis stores/state machine/HTTP transport/routes; 70% RocksDB-backed, else in-memory), every peer address is a harness proxy that refuses by (sender->target), drops requests/responses or delays; \
          schedule = 2-3 episodes of {isolate the current leader | isolate a node | drop 10-60% | delay | restart a RocksDB node} + writes of fresh keys through every node claiming leadership + 2.5-4.5 s wait (+ heal or more writes), <= 12 actions; \
          then heal, acknowledged barrier write, wait until all applied positions are equal (not within 60 s => discarded, reported as inconclusive when frequent). Oracle: the three states are JSON-equal, every acknowledged key is in every state, and every intermediate sample of a node's state is closed under the acknowledged log order. \
          non-trivial = leadership moved (node or term) and a write was issued while a fault was active.  Real timers: schedules are sampled, not reproducible.",
     );
     check.assume("sampled schedules with the compiled-in 1.5-3 s election timers; the TLA+ model named in the property's quantifier is not built");
     check.assume("restart = clean stop of Raft and store, reopen on the same directory (no torn writes); in-memory nodes are never restarted");
-    check.explore("cluster", case, 8, 80, run_case);
+    check.explore("cluster", case, 12, 100, run_case);
     let n = NOT_CONVERGED.load(Ordering::Relaxed);
-    let total = check.pick(8usize, 80usize);
+    let total = check.pick(12usize, 100usize);
     if n * 2 > total {
         check.inconclusive(format!("{n} of {total} cluster runs did not converge within the budget"));
     }
